@@ -63,6 +63,108 @@ LONGEST_FOR = (5, 6, 13, 20)        # indices into CONFIGS swept up to the longe
 
 
 # ---------------------------------------------------------------------------------------
+# the SYSTEMATIC configuration space: every prefix / suffix / stop pattern up to a length bound
+# over the alphabet (so every self-overlapping pattern "aa", "aab", "aba", every pair of stops that
+# are prefixes / suffixes / infixes of each other or of the suffix is in it), up to renaming of the
+# letters (the texts range over all of {a,b,c}*, so one representative per renaming class suffices)
+
+
+def _strs(lo, hi):
+    return ["".join(t) for n in range(lo, hi + 1) for t in itertools.product(ALPHABET, repeat=n)]
+
+
+def canonical(cfg):
+    """First occurrences of the letters in prefix+suffix+stops appear in the order a, b, c."""
+    seen = []
+    for ch in (cfg[0] or "") + (cfg[1] or "") + "".join(cfg[2]):
+        if ch not in seen:
+            seen.append(ch)
+    return seen == list(ALPHABET[: len(seen)])
+
+
+def systematic_configs():
+    """[(config, family, max text length for on_llm_end, max text length for push_chunk(''))]"""
+    p2, p3, p4 = _strs(1, 2), _strs(1, 3), _strs(4, 4)
+    fams = [
+        # every suffix x every single stop, patterns up to length 3
+        ("suffix3-x-stop3", 5, 4, [(None, sf, st) for sf in [None] + p3 for st in [[]] + [[x] for x in p3]]),
+        # every ordered pair of distinct stops up to length 3
+        ("stop3-pairs", 5, 4, [(None, None, [x, y]) for x in p3 for y in p3 if x != y]),
+        # every prefix x suffix x single stop, patterns up to length 2
+        ("prefix2-x-suffix2-x-stop2", 4, 4,
+         [(pf, sf, st) for pf in p2 for sf in [None] + p2 for st in [[]] + [[x] for x in p2]]),
+        # prefix and suffix up to length 3 (at least one of length 3)
+        ("prefix3-x-suffix3", 5, 4, [(pf, None, []) for pf in p3]
+         + [(pf, sf, []) for pf in p3 for sf in p3 if len(pf) == 3 or len(sf) == 3]),
+        # a single suffix / a single stop of length 4 (partial matches that go past a recurrence)
+        ("single-pattern4", 6, 5, [(None, sf, []) for sf in p4] + [(None, None, [x]) for x in p4]),
+        # suffix x ordered pair of stops, patterns up to length 2
+        ("suffix2-x-stop2-pairs", 4, 4, [(None, sf, [x, y]) for sf in p2 for x in p2 for y in p2 if x != y]),
+    ]
+    out, seen = [], set()
+    for name, l_end, l_empty, cfgs in fams:
+        for cfg in cfgs:
+            key = (cfg[0], cfg[1], tuple(cfg[2]))
+            if key in seen or not canonical(cfg):
+                continue
+            seen.add(key)
+            out.append((cfg, name, l_end, l_empty))
+    return out
+
+
+# realistic multi-character patterns (besides those read from generation.py): stop sequences and
+# suffixes whose first character recurs inside them, LLM-level stop lists used by generation.py
+REAL_CONFIGS = [
+    (None, None, ["\n\nHuman:"]),
+    ('  "', '"', ["\n\nHuman:", '"\n']),
+    (None, '"""', []),
+    ('"""', '"""', ["\n\n\n"]),
+    (None, None, ["\nuser ", "\nUser "]),
+    (None, None, ["User:"]),
+    (None, '"', ['"\n', '"""']),
+    ("``", "```", ["```\n"]),
+]
+
+
+def real_texts(cfg):
+    """LLM-like outputs that exercise the patterns of cfg: with / without prefix, suffix at the end,
+    stop sequence in the middle, at the end, only partially present."""
+    prefix, suffix, stop = cfg
+    bodies = ["Hi", "Hi there", "a\n", 'say "x"', ""]
+    texts = []
+    for body in bodies:
+        t = (prefix or "") + body
+        texts.append(t)
+        texts.append(t + (suffix or ""))
+        if suffix:
+            texts.append(t + suffix[:-1])
+            texts.append(t + suffix + suffix)
+        for st in stop:
+            texts.append(t + st + "x")
+            texts.append(t + (suffix or "") + st)
+            texts.append(t + st[:-1])
+            texts.append(t + st[: max(1, len(st) // 2)] + "y" + st)
+    texts.append("x" + (suffix or "") + "".join(stop))      # does not start with the prefix
+    seen, out = set(), []
+    for t in texts:
+        if t not in seen:
+            seen.add(t)
+            out.append(t)
+    return out
+
+
+def few_cut_chunkings(text, max_cuts=2):
+    """Every chunking of text with at most max_cuts chunk boundaries."""
+    n = len(text)
+    res = []
+    for k in range(0, max_cuts + 1):
+        for cuts in itertools.combinations(range(1, n), k):
+            b = [0] + list(cuts) + [n]
+            res.append([text[b[i]: b[i + 1]] for i in range(len(b) - 1)])
+    return res if n else [[]]
+
+
+# ---------------------------------------------------------------------------------------
 # the property text, restated (independent of the model): prefix removed if the text starts
 # with it, cut at the leftmost occurrence of any stop sequence, suffix removed from the very end
 
@@ -262,17 +364,22 @@ def _block_worker(args):
     """One (config, end mode, text length) block, exhaustively: every text of that length over
     ALPHABET, every chunking.  Returns the per-text observation hashes (for the correspondence),
     the oracle verdicts (counts + smallest failure per signature) and the run count."""
-    cfg, end, length, repo, want_hash = args
+    cfg, end, tspec, repo, want_hash = args
     C.REPO = repo
     prefix, suffix, stop = cfg
     runs = oracle_runs = nontrivial = 0
     fails = {}
     hashes = []
-    for tup in itertools.product(ALPHABET, repeat=length):
-        text = "".join(tup)
+    few_cuts = False
+    if tspec[0] == "len":       # ("len", lo, hi): every text over ALPHABET with lo <= length <= hi
+        texts = ("".join(tup) for n in range(tspec[1], tspec[2] + 1) for tup in itertools.product(ALPHABET, repeat=n))
+    else:                       # ("texts", [...]) all chunkings / ("fewcuts", [...]) at most 2 boundaries
+        texts = tspec[1]
+        few_cuts = tspec[0] == "fewcuts"
+    for text in texts:
         seen = prefix_seen(prefix, text)
         want = spec(prefix, suffix, stop, text)
-        chs = chunkings(text)
+        chs = few_cut_chunkings(text) if few_cuts else chunkings(text)
         obs = drive_many([(prefix, suffix, stop, ch, end) for ch in chs])
         h = 0
         for ch, o in zip(chs, obs):
@@ -282,7 +389,7 @@ def _block_worker(args):
                 h = None
             else:
                 if h is not None:
-                    h = hash_obs(h, o) if want_hash else 0
+                    h = hash_obs(h, o) if want_hash and not few_cuts else 0
                 got, comp = delivered(o[0]), o[1]
                 if end != "llm_end" and not seen:
                     # documented: push_chunk("")/None is ignored while the prefix is pending
@@ -364,10 +471,14 @@ def gen_sampled_jobs(tier, rng, gen_cfgs):
     # the patterns generation.py really configures, on LLM-like outputs
     n_gen = 600 if tier == "quick" else 6000
     words = ["Hello", " there", "!", " How", " are", " you", "?", '"', "\n", "User", " intent", ":", " ", "  ",
-             "Bot", " message", 'say "hi"', ".", "user ", "\nUser "]
+             "Bot", " message", 'say "hi"', ".", "user ", "\nUser ", "\n\n", "Hu", "man:", '""', "`", "``"]
     for _ in range(n_gen if gen_cfgs else 0):
         cfg = rng.choice(gen_cfgs)
-        body = "".join(rng.choice(words) for _ in range(rng.randint(0, 8)))
+        pieces = [rng.choice(words) for _ in range(rng.randint(0, 8))]
+        if cfg[2] and rng.random() < 0.6:
+            st = rng.choice(cfg[2])
+            pieces.insert(rng.randint(0, len(pieces)), st if rng.random() < 0.7 else st[: rng.randint(1, len(st))])
+        body = "".join(pieces)
         text = (cfg[0] or "") + body if rng.random() < 0.8 else body
         r = rng.random()
         if r < 0.4 and cfg[1]:
@@ -412,11 +523,14 @@ def printable(job):
     return all(ord(ch) < 1 << 20 for s in [job[0] or "", job[1] or ""] + list(job[2]) + list(job[3]) for ch in s)
 
 
-def exhaustive_plan(tier):
-    """Blocks (config, end mode, length, compared-with-model?) of the exhaustive sweep."""
+def exhaustive_plan(tier, seed, gen_cfgs):
+    """Blocks (config, end mode, texts, repo, compared-with-model?) of the exhaustive sweep, and
+    a description of the configuration space."""
     x_len = 6 if tier == "quick" else 7          # model vs implementation, all chunkings
     o_len = 7 if tier == "quick" else 9          # implementation vs restated property only
     blocks = []
+    info = {}
+    # (1) the hand-picked configurations, long texts
     for ci, cfg in enumerate(CONFIGS):
         for end in END_MODES:
             for length in range(0, o_len + 1):
@@ -428,10 +542,52 @@ def exhaustive_plan(tier):
                         continue
                     if length == 9 and ci not in LONGEST_FOR:
                         continue                  # longest texts: four pattern-rich configurations
-                blocks.append((cfg, end, length, C.REPO, with_model))
-    # longest blocks first: better load balance
-    blocks.sort(key=lambda b: -b[2])
-    return blocks
+                blocks.append((cfg, end, ("len", length, length), C.REPO, with_model))
+    # (2) the systematic configuration space, shorter texts; the model is compared on a slice of
+    #     it in the quick tier (a different slice for every seed) and on all of it in the thorough tier
+    sysc = systematic_configs()
+    fam_count = {}
+    extra = 0 if tier == "quick" else 1
+    n_model = 0
+    for i, (cfg, fam, l_end, l_empty) in enumerate(sysc):
+        fam_count[fam] = fam_count.get(fam, 0) + 1
+        with_model = tier != "quick" or (i + seed) % 6 == 0
+        n_model += with_model
+        m_len = min(4, l_empty)
+        blocks.append((cfg, "llm_end", ("len", 0, m_len), C.REPO, with_model))
+        blocks.append((cfg, "empty", ("len", 0, m_len), C.REPO, with_model))
+        if l_end + extra > m_len:
+            blocks.append((cfg, "llm_end", ("len", m_len + 1, l_end + extra), C.REPO, False))
+        if l_empty + extra > m_len:
+            blocks.append((cfg, "empty", ("len", m_len + 1, l_empty + extra), C.REPO, False))
+    info["systematic_configs"] = len(sysc)
+    info["systematic_families"] = fam_count
+    info["systematic_configs_compared_with_model"] = n_model
+    # (3) realistic patterns: generation.py's and multi-character ones with a recurring first
+    #     character; short texts with every chunking (and the model), longer ones with <= 2 boundaries
+    real = [tuple(c) for c in gen_cfgs] + REAL_CONFIGS
+    n_real_texts = 0
+    for cfg in real:
+        texts = real_texts(cfg)
+        n_real_texts += len(texts)
+        short = [t for t in texts if len(t) <= (11 if tier == "quick" else 14)]
+        for end in ("llm_end", "empty"):
+            if short:
+                blocks.append((cfg, end, ("texts", short), C.REPO, True))
+            blocks.append((cfg, end, ("fewcuts", texts), C.REPO, False))
+    info["realistic_configs"] = len(real)
+    info["realistic_texts"] = n_real_texts
+
+    def weight(b):
+        t = b[2]
+        if t[0] == "len":
+            return sum(6 ** n for n in range(t[1], t[2] + 1))
+        if t[0] == "texts":
+            return sum(2 ** len(x) for x in t[1])
+        return sum(len(x) ** 2 for x in t[1])
+
+    blocks.sort(key=lambda b: -weight(b))       # heaviest blocks first: better load balance
+    return blocks, info
 
 
 def run(tier, seed, replay=None):
@@ -478,9 +634,11 @@ def run(tier, seed, replay=None):
     sweep_runs = oracle_runs = nontrivial = 0
     dist = {}
     if not replay:
-        blocks = [bl for bl in exhaustive_plan(tier) if bl[0] in cfg_list]
+        blocks, plan_info = exhaustive_plan(tier, seed, gen_cfgs)
+        blocks = [bl for bl in blocks if not (use_old and "" in bl[0][2])]
+        dist.update(plan_info)
         with ProcessPoolExecutor(max_workers=C.NPROC) as ex:
-            for (cfg, end, hashes, runs, o_runs, nt, fl), bl in zip(ex.map(_block_worker, blocks, chunksize=1), blocks):
+            for (cfg, end, hashes, runs, o_runs, nt, fl), bl in zip(ex.map(_block_worker, blocks, chunksize=2), blocks):
                 sweep_runs += runs
                 oracle_runs += o_runs
                 nontrivial += nt
@@ -492,8 +650,8 @@ def run(tier, seed, replay=None):
                             tcases.append((cfg, end, text, h))
         dist["exhaustive_blocks"] = len(blocks)
         dist["exhaustive_runs_on_impl"] = sweep_runs
-        dist["exhaustive_max_len_model"] = max([bl[2] for bl in blocks if bl[4]] or [0])
-        dist["exhaustive_max_len_oracle"] = max([bl[2] for bl in blocks] or [0])
+        dist["exhaustive_max_len_model"] = max([bl[2][2] for bl in blocks if bl[4] and bl[2][0] == "len"] or [0])
+        dist["exhaustive_max_len_oracle"] = max([bl[2][2] for bl in blocks if bl[2][0] == "len"] or [0])
     timing["exhaustive_impl_s"] = round(time.time() - t1, 1)
 
     t2 = time.time()
@@ -517,7 +675,7 @@ def run(tier, seed, replay=None):
         for ch in chunkings(text):
             jobs.append((cfg[0], cfg[1], cfg[2], ch, end, False))
     if not replay:
-        sj, d2 = gen_sampled_jobs(tier, rng, gen_cfgs)
+        sj, d2 = gen_sampled_jobs(tier, rng, [tuple(c) for c in gen_cfgs] + REAL_CONFIGS)
         dist.update(d2)
         jobs += sj
     if use_old:
